@@ -18,7 +18,7 @@ INPKG = ["internal/net/zz_verif_c28.go"]
 TIMEOUT = 900
 MANIFEST = {
     "level_text": "Kernel-checked theorem over a step-by-step model of the inet.Client connection pool (Get/Put/Discard/Close, LIFO idle stack, idle-timeout eviction, maxIdle bound) and of SendProto / SendBatchProto with every early exit, for ALL schedules of any number of concurrent calls interleaved with the server's per-connection sequential handling, failures or timeouts at any step, cancellation between batch frames, swallowed requests and client Close: every pooled connection is clean (balance 0, no deadline; C28_idle_clean) and a call that returns success returns exactly the responses to its own requests in request order (C28_own_reply, C28_holds). Tied to the code by running the real inet.Client (SendProto, SendBatchProto) and the real remoteclient.Client (RemoteAsk, RemoteBatchAsk) with concurrent callers against a real in-process ProtoServer on loop-back TCP whose handler parks each request on a controller gate (scripted reply / error / no reply / caller deadline first), comparing per-call results, the connection each call used (dial order), pool size and dial count with the model.",
-    "level_note": "partial: TCP (in-order byte streams per direction) and the server contract (ProtoServer.handleConn handles the frames of one connection sequentially and writes at most one response per request) are parameters of the model; the latter is exercised by the tie (the real ProtoServer is the peer) but not proved. The tie is a differential on controller-serialised schedules: calls are concurrent (several in flight on different connections, finishing in any order) but the instants at which they touch the pool are ordered by the controller; SetDeadline/marshal failures are in the model only. The actor-side remoteAskHandler building the reply list in request order is exercised by C29's harness, not here (here the peer echoes).",
+    "level_note": "partial: TCP (in-order byte streams per direction) and the server contract (ProtoServer.handleConn handles the frames of one connection sequentially and writes at most one response per request) are parameters of the model; the latter is exercised by the tie (the real ProtoServer is the peer) but not proved. The tie is a differential on controller-serialised schedules: calls are concurrent (several in flight on different connections, finishing in any order) but the instants at which they touch the pool are ordered by the controller; SetDeadline/marshal failures are in the model only; cancellation between two reads / two writes of a batch is driven (ops b..c, k, b..x). The actor-side remoteAskHandler building the reply list in request order is exercised by C29's harness, not here (here the peer echoes).",
     "technique": "Lean 4 proof (inductive invariant over a small-step model of pool + exchanges) + model/implementation differential on gate-controlled concurrent runs over loop-back TCP",
 }
 TRUSTED = [
@@ -26,7 +26,7 @@ TRUSTED = [
     "ProtoServer.handleConn serves the frames of one connection one after the other, at most one response frame per request (model parameter; the real ProtoServer is the peer in the tie)",
     "the controller harness (harness/verifdrv/c28): bounded waits, STALL marker when a 200 ms deadline may have fired early under load",
 ]
-RULE = ("scripts over modes inet/rc, maxIdle 0..3, stale-pool on/off, 2..9 calls (single, batches of 2..4, with/without deadline) with up to 4 in flight at once, "
+RULE = ("batches with cancellable / pre-cancelled contexts (cancel between reads and between writes); scripts over modes inet/rc, maxIdle 0..3, stale-pool on/off, 2..9 calls (single, batches of 2..4, with/without deadline) with up to 4 in flight at once, "
         "released in random order with reply / handler error / no reply, deadline expiry while parked, client Close mid-way; "
         "non-trivial = at least one call completed successfully; distinct by (case, output)")
 
@@ -37,6 +37,7 @@ def _gen_one(rng, allow_timeouts):
     it = 1 if rng.random() < 0.15 else 0
     ops = []
     inflight = {}   # k -> [frames_left, dl]
+    cancellable = set()
     k = 0
     ncalls = rng.randint(2, 9)
     timeouts = 0
@@ -49,8 +50,16 @@ def _gen_one(rng, allow_timeouts):
             dl = allow_timeouts and rng.random() < 0.35
             if rng.random() < 0.3:
                 n = rng.randint(2, 4)
-                ops.append("b%d:%d%s" % (k, n, "d" if dl else ""))
+                flag = "d" if dl else ""
+                if mode == "inet" and not dl and rng.random() < 0.35:
+                    flag = rng.choice("ccx")
+                ops.append("b%d:%d%s" % (k, n, flag))
                 frames = n if mode == "inet" else 1
+                if flag == "x":
+                    k += 1
+                    continue
+                if flag == "c":
+                    cancellable.add(k)
             else:
                 ops.append("a%d%s" % (k, "d" if dl else ""))
                 frames = 1
@@ -66,6 +75,18 @@ def _gen_one(rng, allow_timeouts):
         j = rng.choice(sorted(inflight))
         fl, dl = inflight[j]
         q = rng.random()
+        if j in cancellable and inflight[j][0] >= 2 and rng.random() < 0.5:
+            # cancel, then answer the parked request: the call ends between two reads (if frames remain)
+            ops.append("k%d" % j)
+            cancellable.discard(j)
+            ops.append("r%d" % j)
+            if inflight[j][0] > 1:
+                del inflight[j]
+            else:
+                inflight[j][0] -= 1
+                if inflight[j][0] == 0:
+                    del inflight[j]
+            continue
         if dl and timeouts < 2 and q < 0.25:
             ops.append("t"); timeouts += 1
             for m in [m for m in inflight if inflight[m][1]]:
@@ -94,7 +115,17 @@ def _gen_one(rng, allow_timeouts):
 
 
 def _structured():
-    out = []
+    out = [
+        # cancellation noticed between two reads / between two writes of a batch; the connection must be discarded
+        "pool inet 2 0 a0 r0 b1:3c k1 r1 a2 r2 r1 r1",
+        "pool inet 2 0 a0 r0 b1:3c r1 k1 r1 a2 r2 r1",
+        "pool inet 2 0 a0 r0 b1:2x a2 r2 a3 r3",
+        "pool inet 2 0 b0:2x a1 r1",
+        "pool inet 1 0 b0:3c r0 k0 r0 r0 a1 r1",
+        # two calls in flight right after a connection went back to the pool (ownership: Get must remove it)
+        "pool inet 2 0 a0 r0 b1:2 a2 r1 r1 r2",
+        "pool inet 2 0 a0 r0 b1:3 a2 a3 r1 r1 r1 r2 r3",
+    ]
     for mode in ("inet", "rc"):
         # LIFO reuse, pool bound, discard on timeout, late response of a timed-out request
         out.append("pool %s 2 0 a0 a1 a2 r1 r0 r2 a3 a4 a5 r5 r4 r3" % mode)
@@ -128,7 +159,7 @@ def compare(case, impl, model):
 def _sizes(case):
     sz = {}
     for op in case.split()[4:]:
-        m = re.fullmatch(r"b(\d+):(\d+)d?", op)
+        m = re.fullmatch(r"b(\d+):(\d+)[dcx]?", op)
         if m:
             sz.setdefault(int(m.group(1)), int(m.group(2)))
         m = re.fullmatch(r"a(\d+)d?", op)
